@@ -24,7 +24,7 @@ class C13(Prop):
     modelled = "sampling.sample_in_hull: einsum combination, volume weights |det|/d!; estimator.sample_in_hull wrapper (P = corner images; L1 variant via barycentric reduction). Opaque: ConvexHull/Delaunay, rng.choice, dirichlet, QMC"
 
     def sizes(self, tier):
-        return 60 if tier == "quick" else 600
+        return 100 if tier == "quick" else 1000
 
     def gen(self, rng, n, tier):
         cases = []
@@ -34,7 +34,7 @@ class C13(Prop):
             if engine == "Sobol" and nn not in (1, 2):
                 nn = rng.choice([8, 16, 256])
             seed = rng.randint(0, 10**6)
-            if rng.random() < 0.5:
+            if rng.random() < 0.6:
                 d = rng.randint(2, 4)
                 shape = rng.choice(["random", "interior", "collinear", "skewed"])
                 npts = rng.randint(d + 2, d + 8)
@@ -46,8 +46,13 @@ class C13(Prop):
                     P += [(a + (b - a) * t + 1 / 1024 * np.array([rng.randint(-1, 1) for _ in range(d)])).tolist() for t in (0.25, 0.5, 0.75)]
                 elif shape == "skewed":
                     P = [[v * (64 if j == 0 else 1) for j, v in enumerate(r)] for r in P]
-                cases.append({"entry": "function", "P": P, "n": nn, "engine": engine, "seed": seed,
-                              "kind": "cloud/%dd/%s/%s/n%d" % (d, shape, engine, nn)})
+                # the same cloud in other units (exact power-of-two rescaling, undone on everything returned), or whole-number clouds with an integer dtype
+                scale = 1.0 if rng.random() < 0.3 else 2.0 ** -rng.randint(1, 24)      # every order of magnitude down to 6e-8: derived volumes cross any absolute threshold
+                ints = False
+                if shape == "random" and rng.random() < 0.3:
+                    P = [[float(rng.randint(0, 6)) for _ in range(d)] for _ in range(npts)]; ints = True; scale = 1.0
+                cases.append({"entry": "function", "P": P, "n": nn, "engine": engine, "seed": seed, "scale": scale, "ints": ints,
+                              "kind": "cloud/%dd/%s/%s/n%d%s%s" % (d, shape, engine, nn, "" if scale == 1.0 else "/scaled", "/int" if ints else "")})
             else:
                 m0 = rng.randint(2, 4)
                 sys = gs.gen_system(rng, mrange=(m0, m0), nrange=(m0, 5), finite_ub=True, lb_zero=(rng.random() < 0.6), Kkind=rng.choice(["none", "scalar", "vector"]))
@@ -65,11 +70,20 @@ class C13(Prop):
         import dreye
         core.drain_hooks()
         if case["entry"] == "function":
-            out = dreye.sample_in_hull(np.array(case["P"], dtype=float), case["n"], seed=case["seed"], engine=case["engine"])
+            sc = case.get("scale", 1.0)
+            Pin = np.array(case["P"], dtype=float) * sc
+            if case.get("ints"):
+                Pin = Pin.astype(np.int64)
+            out = np.asarray(dreye.sample_in_hull(Pin, case["n"], seed=case["seed"], engine=case["engine"]), dtype=float) / sc
         else:
             est = gs.make_estimator(C04.sysnp(case))
             out = est.sample_in_gamut(n=case["n"], seed=case["seed"], engine=case["engine"], l1=case["l1"], relative=case["relative"])
         rec = [h[1] for h in core.drain_hooks() if h[0] == "sample.draw"]
+        sc = case.get("scale", 1.0) if case["entry"] == "function" else 1.0
+        if sc != 1.0:
+            for r in rec:
+                r["deln"] = np.asarray(r["deln"], dtype=float) / sc
+                r["vols"] = np.asarray(r["vols"], dtype=float) / sc ** np.asarray(r["deln"]).shape[-1]
         return np.asarray(out, dtype=float), rec
 
     def run_impl(self, case):
